@@ -1360,6 +1360,7 @@ func c19Wrappers(e *Env) {
 	}
 	type glueReq struct{ c, req, real, what string }
 	var glue []glueReq
+	wide := c19_wideInit(e) // the regenerated inventory of the other modules' wrappers (c19wide.go)
 	for si := range specs {
 		sp := &specs[si]
 		fnName := sp.mod + "." + sp.name
@@ -1418,6 +1419,8 @@ func c19Wrappers(e *Env) {
 					e.R.Mismatch(c, viaObj, viaScript, "object API and script route disagree")
 				}
 			}
+			// glue model of the wider inventory (base64, bytes, filepath, math, strconv)
+			wide.note(sp, c, a, arityOK, wellTyped, viaObj)
 			// glue model (strings module): the Lean wrapper model predicts the risor outcome from the Go result
 			if sp.mod == "strings" {
 				goRes := "panic"
@@ -1521,6 +1524,7 @@ func c19Wrappers(e *Env) {
 			e.R.H("argument-convention-model", kind)
 		}
 	}
+	wide.finish(e)
 }
 
 // ------------------------------------------------------------------ codecs
@@ -2782,6 +2786,7 @@ func c19_runC19(e *Env) {
 	c19Floats64(e)
 	c19JSON(e)
 	c19Wrappers(e)
+	c19Decimal(e)
 	e.R.Hist["liveness"] = map[string]int{"results kept alive": c19Live.tracked, "re-examinations of an earlier result after a later call": c19Live.rechecks,
 		"arguments compared before/after their call": c19Live.argChk}
 }
